@@ -412,8 +412,12 @@ class TFLiteSerialiser:
         inputs = [self.tensor_map_sg[tens] for tens in sg.original_inputs if tens in self.tensor_map_sg]
 
         inputs_offset = self.write_int_vector(inputs)
+        output_tensors = sg.output_tensors
+        if sg.original_output_positions is not None:
+            # restore repeated entries of the original output list
+            output_tensors = [sg.output_tensors[pos] for pos in sg.original_output_positions]
         outputs_offset = self.write_int_vector(
-            [self.tensor_map_sg[tens] for tens in sg.output_tensors if tens in self.tensor_map_sg]
+            [self.tensor_map_sg[tens] for tens in output_tensors if tens in self.tensor_map_sg]
         )
 
         operators_offset = self.write_offset_vector([self.serialise_operator(op) for op in all_ops])
